@@ -170,3 +170,189 @@ async fn new_session_client_insert_sync_finalize() {
     println!("new session client insert+sync+finalize: {:?}", r.as_ref().map(|c| c.is_some()).map_err(|e| format!("{e:?}")));
     assert!(r.is_ok(), "WITNESS-F");
 }
+
+// =====================================================================================================
+// Bounded witness SEARCH (labelled bounded; never counted as proved): every history of up to 3 operations in
+// request 1 × a probe request 2, under the four policy combinations, against a small reference model of the
+// property statement. Finds failing inputs for the obligations above and backs the verifier when it is undecided.
+// =====================================================================================================
+mod search {
+    use super::*;
+    use pavex_session::config::{MissingServerState, ServerStateCreation};
+    use std::collections::BTreeMap;
+
+    #[derive(Clone, Copy, Debug, PartialEq)]
+    pub enum Op { Get, InsA, InsB, OverA, RemA, Clear, Delete, Cycle, Sync, Invalidate, CIns, CRem, CClear }
+    pub const OPS: [Op; 13] = [Op::Get, Op::InsA, Op::InsB, Op::OverA, Op::RemA, Op::Clear, Op::Delete, Op::Cycle, Op::Sync, Op::Invalidate, Op::CIns, Op::CRem, Op::CClear];
+
+    /// what the property lets the next request observe
+    #[derive(Clone, Debug, PartialEq, Default)]
+    pub struct Obs { pub server: BTreeMap<String, i64>, pub client: BTreeMap<String, i64> }
+
+    /// reference model of ONE request (statement-level semantics; `record` = server record at request start)
+    pub struct Model {
+        pub record: Option<BTreeMap<String, i64>>, // logical server record (None = no record)
+        pub client: BTreeMap<String, i64>,
+        pub marked: bool,       // delete() pending
+        pub invalidated: bool,
+        pub loaded: bool,
+        pub reject: bool,
+        pub existing: bool,
+        pub client_updated: bool,
+    }
+    impl Model {
+        fn load(&mut self) {
+            if self.loaded { return; }
+            self.loaded = true;
+            if self.existing && self.record.is_none() && !self.marked && self.reject { self.invalidated = true; self.marked = true; }
+        }
+        pub fn apply(&mut self, op: Op) {
+            match op {
+                Op::Get => self.load(),
+                Op::InsA | Op::InsB | Op::OverA => { self.load(); if !self.marked { let m = self.record.get_or_insert_with(Default::default);
+                    match op { Op::InsA => { m.insert("a".into(), 1); } Op::InsB => { m.insert("b".into(), 2); } _ => { m.insert("a".into(), 9); } } } }
+                Op::RemA => { self.load(); if !self.marked { if let Some(m) = &mut self.record { m.remove("a"); } } }
+                Op::Clear => { self.load(); if !self.marked { if let Some(m) = &mut self.record { m.clear(); } } }
+                Op::Delete => { self.marked = true; self.record = None; self.loaded = true; }
+                Op::Invalidate => { self.marked = true; self.invalidated = true; self.record = None; self.loaded = true; }
+                Op::Cycle => {}
+                Op::Sync => { if self.marked && !self.invalidated { self.marked = false; } }
+                Op::CIns => { if !self.invalidated { self.client.insert("c".into(), 7); self.client_updated = true; } }
+                Op::CRem => { if !self.invalidated && self.client.remove("c").is_some() { self.client_updated = true; } }
+                Op::CClear => { if !self.invalidated && !self.client.is_empty() { self.client.clear(); self.client_updated = true; } }
+            }
+        }
+        pub fn end(&self) -> Obs {
+            if self.invalidated { return Obs::default(); }
+            Obs { server: self.record.clone().unwrap_or_default(), client: self.client.clone() }
+        }
+    }
+
+    async fn apply_real(s: &mut Session<'_>, op: Op) -> Result<(), String> {
+        match op {
+            Op::Get => { let _ = s.get_raw("a").await.unwrap(); }
+            Op::InsA => { s.insert("a", 1).await.unwrap(); }
+            Op::InsB => { s.insert("b", 2).await.unwrap(); }
+            Op::OverA => { s.insert("a", 9).await.unwrap(); }
+            Op::RemA => { s.remove_raw("a").await.unwrap(); }
+            Op::Clear => { s.clear().await.unwrap(); }
+            Op::Delete => s.delete(),
+            Op::Cycle => s.cycle_id(),
+            Op::Sync => return s.sync().await.map_err(|e| format!("{e:?}")),
+            Op::Invalidate => s.invalidate(),
+            Op::CIns => { s.client_mut().insert("c", 7).unwrap(); }
+            Op::CRem => { s.client_mut().remove_raw("c"); }
+            Op::CClear => { s.client_mut().clear(); }
+        }
+        Ok(())
+    }
+    async fn observe(s: &Session<'_>) -> Obs {
+        let mut o = Obs::default();
+        for k in ["a", "b"] { if let Some(v) = s.get_raw(k).await.unwrap() { o.server.insert(k.into(), v.as_i64().unwrap()); } }
+        if let Some(v) = s.client().get_raw("c") { o.client.insert("c".into(), v.as_i64().unwrap()); }
+        o
+    }
+
+    /// run `setup` as request 0 (to create the starting point), `ops` as request 1, then probe as request 2
+    pub async fn run(setup: &[Op], ops: &[Op], creation: ServerStateCreation, missing: MissingServerState) -> Result<(), String> {
+        let store = SessionStore::new(InMemorySessionStore::new());
+        let mut config = SessionConfig::default();
+        config.state.server_state_creation = creation.clone();
+        config.state.missing_server_state = missing.clone();
+        let reject = missing == MissingServerState::Reject;
+        let tag = format!("setup={setup:?} ops={ops:?} creation={creation:?} missing={missing:?}");
+
+        // request 0
+        let mut cookie = None;
+        let mut m0 = Model { record: None, client: Default::default(), marked: false, invalidated: false, loaded: true, reject, existing: false, client_updated: false };
+        if !setup.is_empty() {
+            let mut s0 = Session::new(&store, &config, None);
+            for op in setup { apply_real(&mut s0, *op).await.map_err(|e| format!("{tag}: request 0: {e}"))?; m0.apply(*op); }
+            cookie = s0.finalize().await.map_err(|e| format!("{tag}: request 0 failed: {e:?}"))?;
+        }
+        let e0 = m0.end();
+        let had_cookie = cookie.is_some();
+        // a record exists after request 0 iff it has state or the policy creates an empty one for a session with a cookie
+        let rec0 = if !had_cookie { None } else if m0.record.is_some() { Some(e0.server.clone()) }
+                   else if creation == ServerStateCreation::NeverSkip && m0.client_updated && !m0.marked { Some(Default::default()) } else { None };
+
+        // request 1
+        let inc = cookie.as_ref().map(incoming);
+        let old_cookie = cookie.clone();
+        let mut s1 = Session::new(&store, &config, inc);
+        let mut m1 = Model { record: rec0, client: e0.client.clone(), marked: false, invalidated: false, loaded: !had_cookie, reject, existing: had_cookie, client_updated: false };
+        // under `Reject`, a pre-existing session without a server record is to be rejected: operations may fail on it
+        let doomed = reject && had_cookie && m1.record.is_none();
+        for op in ops {
+            if let Err(e) = apply_real(&mut s1, *op).await {
+                return if doomed { Ok(()) } else { Err(format!("{tag}: {op:?} failed on a healthy store: {e}")) };
+            }
+            m1.apply(*op);
+        }
+        let seen_end = observe(&s1).await; m1.load();
+        let want_end = m1.end();
+        if seen_end != want_end { return Err(format!("{tag}: request 1 itself observes {seen_end:?}, the statement says {want_end:?}")); }
+        let c1 = match s1.finalize().await {
+            Ok(c) => c,
+            Err(e) => return if doomed { Ok(()) } else { Err(format!("{tag}: finalize failed on a healthy store: {e:?}")) },
+        };
+
+        if m1.invalidated {
+            // removal cookie iff it had a session; the old cookie yields nothing any more
+            if had_cookie && c1.is_none() { return Err(format!("{tag}: invalidated a session the client holds a cookie for, but no removal cookie was returned")); }
+            if let Some(old) = old_cookie {
+                let s = Session::new(&store, &config, Some(incoming(&old)));
+                if s.get_raw("a").await.unwrap().is_some() || s.get_raw("b").await.unwrap().is_some() {
+                    return Err(format!("{tag}: the old cookie still yields server state after invalidate()"));
+                }
+            }
+            return Ok(());
+        }
+        let Some(c1) = c1 else {
+            return if want_end == Obs::default() { Ok(()) } else { Err(format!("{tag}: no cookie although the request ended with {want_end:?}")) };
+        };
+        if c1.value().is_empty() { return Err(format!("{tag}: a removal cookie was returned although the session was not invalidated (the statement says it ends with {want_end:?})")); }
+        // request 2: must observe exactly what request 1 ended with — unless the policy rejects a record-less session
+        let s2 = Session::new(&store, &config, Some(incoming(&c1)));
+        let seen = observe(&s2).await;
+        let record_exists_after = m1.record.is_some()
+            || (creation == ServerStateCreation::NeverSkip && !m1.marked && (had_cookie || m1.client_updated));
+        let want = if reject && !record_exists_after { Obs::default() } else { want_end.clone() };
+        if seen != want { return Err(format!("{tag}: the next request observes {seen:?}, the previous one ended with {want:?}")); }
+        // after cycle_id the state is reachable only under the new id
+        if ops.contains(&Op::Cycle) {
+            if let Some(old) = old_cookie {
+                let s = Session::new(&store, &config, Some(incoming(&old)));
+                if !want.server.is_empty() && (s.get_raw("a").await.unwrap().is_some() || s.get_raw("b").await.unwrap().is_some()) {
+                    return Err(format!("{tag}: after cycle_id the old id still yields server state"));
+                }
+            }
+        }
+        Ok(())
+    }
+}
+
+#[tokio::test]
+async fn bounded_search_over_histories() {
+    use pavex_session::config::{MissingServerState, ServerStateCreation};
+    use search::{Op, OPS};
+    let setups: [&[Op]; 4] = [&[], &[Op::InsA], &[Op::InsA, Op::CIns], &[Op::CIns]];
+    let mut failures = Vec::new();
+    let mut n = 0usize;
+    for creation in [ServerStateCreation::NeverSkip, ServerStateCreation::SkipIfEmpty] {
+        for missing in [MissingServerState::Reject, MissingServerState::Allow] {
+            for setup in setups {
+                let mut histories: Vec<Vec<Op>> = vec![vec![]];
+                for a in OPS { histories.push(vec![a]); for b in OPS { histories.push(vec![a, b]); } }
+                // length 3 only around the operations that interact (sync / cycle / delete / invalidate)
+                for a in OPS { for b in [Op::Sync, Op::Cycle, Op::Delete, Op::Invalidate] { for c in OPS { histories.push(vec![a, b, c]); } } }
+                for h in histories {
+                    n += 1;
+                    if let Err(e) = search::run(setup, &h, creation.clone(), missing.clone()).await { failures.push(e); }
+                }
+            }
+        }
+    }
+    println!("bounded search: {n} histories explored, {} failing", failures.len());
+    assert!(failures.is_empty(), "{} failing histories, first 5:\n{}", failures.len(), failures.iter().take(5).cloned().collect::<Vec<_>>().join("\n"));
+}
